@@ -38,6 +38,18 @@ def _sort_key(call: ast.Call, what: str) -> str:
     return ExprTranslator({f"int({v}.tag.split('.')[-1])": "last"}).tr(lam.body)
 
 
+class _RestoreTr(ExprTranslator):
+    """adds `max(a, b)`"""
+
+    def tr(self, node: ast.AST) -> str:
+        src = ast.unparse(node)
+        if src in self.names:
+            return self.names[src]
+        if isinstance(node, ast.Call) and ast.unparse(node.func) in ("max", "min") and len(node.args) == 2 and not node.keywords:
+            return f"({ast.unparse(node.func)} {self.tr(node.args[0])} {self.tr(node.args[1])})"
+        return super().tr(node)
+
+
 def generate(repo: str) -> tuple[str, str]:
     # ---- LoopCombinator._product ---------------------------------------------------------------
     comb = os.path.join(repo, "streamflow/workflow/combinator.py")
@@ -83,6 +95,16 @@ def generate(repo: str) -> tuple[str, str]:
     if not (isinstance(b1, ast.Assign) and _ns(b1.targets[0]) == "tag"
             and _ns(b1.value) == "'.'.join(tag.split('.')[:-1]+[str(self.iteration_map[prefix])])"):
         raise TranslateError("LoopCombinator._product: back edge tag is not `prefix + [str(self.iteration_map[prefix])]`")
+    # ---- LoopCombinator.restore ----------------------------------------------------------------
+    rs = parse_function(comb, "restore", cls="LoopCombinator")
+    rloops = [x for x in rs.body if isinstance(x, ast.For)]
+    if len(rloops) != 1 or _ns(rloops[0].iter) != "from_tags.values()" or _ns(rloops[0].target) != "(prefix,iteration)":
+        raise TranslateError("LoopCombinator.restore: `for prefix, iteration in from_tags.values()` not found")
+    rb = rloops[0].body
+    if len(rb) != 2 or _ns(rb[0]) != "iteration_num=int(iteration.split('.')[-1])" or not isinstance(rb[1], ast.Assign) \
+            or _ns(rb[1].targets[0]) != "self.iteration_map[prefix]":
+        raise TranslateError("LoopCombinator.restore: body is not `iteration_num = int(last); self.iteration_map[prefix] = …`")
+    restore_val = _RestoreTr({"iteration_num": "n", "self.iteration_map.get(prefix, iteration_num)": "cur"}).tr(rb[1].value)
     # ---- LoopOutputStep.run --------------------------------------------------------------------
     step_py = os.path.join(repo, "streamflow/workflow/step.py")
     run = parse_function(step_py, "run", cls="LoopOutputStep")
@@ -192,6 +214,8 @@ def loopEmits (count size : Int) : Bool := {emit}
 def loopSortKeyAll (last : Int) : Int := {key_all}
 /-- sort key of CWLLoopOutputLastStep._process_output over the last tag component -/
 def loopSortKeyLast (last : Int) : Int := {key_last}
+/-- LoopCombinator.restore: new counter of `prefix` (`n` = last component of the iteration tag, `cur` = iteration_map.get(prefix, n)) -/
+def loopRestore (cur n : Nat) : Nat := {restore_val}
 /-- LoopCombinatorStep.run: a termination token with status `st` clears the port's checklist -/
 def loopChecklistClears (st : SFV.Status) : Bool := {chk_clears}
 /-- LoopCombinatorStep.run: a data token is added to the checklist (`prefixIn` = its tag prefix is on the checklist) -/
